@@ -226,6 +226,7 @@ partial def runRds (rs : RRegs) (out : List String) : List String → Option (Li
     | "du" =>
       if immA then (if !alias && B.items.isEmpty then inplace (A, none) else refuse)
       else inplace (rdsDiffUpdate A B alias)
+    | "duo" => if immA then refuse else inplace (rdsDiffUpdate A B alias)   -- `-=`: `__isub__` is overridden to raise
     | "sdu" => if immA then refuse else inplace (rdsSymDiffUpdate Consts.singletons A B alias)
     | "sub" => pred (SetAlg.isSubset A.items B.items)
     | "sup" => pred (SetAlg.isSuperset A.items B.items)
